@@ -84,7 +84,12 @@ class Arange(ArrayExpr):
         # midpoint between the last selected element and the next-would-be one
         # so ``ceil`` recovers exactly ``count`` regardless of float error and
         # for either sign of ``new_step`` (the ratio is always ``count - 0.5``).
-        new_stop = new_start + (count - 0.5) * new_step
+        if isinstance(new_start, Integral) and isinstance(new_step, Integral):
+            # exact for integers of any size; the float midpoint below stops
+            # being one from 2**52 on
+            new_stop = new_start + count * new_step
+        else:
+            new_stop = new_start + (count - 0.5) * new_step
         return self.substitute_parameters(
             {
                 "start": new_start,
